@@ -42,6 +42,16 @@ variable {ρ : Str → Str}
     (renameValue ρ v).isExplicitDirect = v.isExplicitDirect := by
   simp [Value.isExplicitDirect]
 
+@[simp] theorem renameValue_isExplicitExtended (v : Value) :
+    (renameValue ρ v).isExplicitExtended = v.isExplicitExtended := by
+  simp [Value.isExplicitExtended]
+@[simp] theorem renameValue_isSymbol (v : Value) : (renameValue ρ v).isSymbol = v.isSymbol := by
+  cases v <;> rfl
+@[simp] theorem renameValue_isExpression (v : Value) : (renameValue ρ v).isExpression = v.isExpression := by
+  cases v with
+  | expr l r op m ae => cases ae <;> rfl
+  | _ => rfl
+
 theorem renameValue_of_numeric {v : Value} (h : v.isNumeric = true) : renameValue ρ v = v := by
   cases v <;> first | rfl | cases h
 
@@ -230,7 +240,30 @@ theorem resolveOperand_rename (hinj : ∀ x y, ρ x = ρ y → x = y) (t : SymTa
   have ev : (renameOperand ρ o).value = renameValue ρ o.value := rfl
   rw [ek]
   cases hkind : o.kind with
-  | pseudo => rfl
+  | pseudo =>
+    dsimp only
+    split
+    · rw [ev]
+      have hres := resolve_rename hinj t o.value
+      cases hv : o.value with
+      | pyNone => rfl
+      | symbol name m =>
+        rw [hv] at hres
+        simp only [renameValue] at hres ⊢
+        simp only [Value.isSymbol, Bool.true_or, if_true]
+        rw [hres]
+        cases (Value.symbol name m).resolve t <;> rfl
+      | expr l r op m ae =>
+        rw [hv] at hres
+        simp only [renameValue] at hres ⊢
+        cases ae with
+        | false =>
+          simp only [Value.isSymbol, Value.isExpression, Bool.or_true, if_true]
+          rw [hres]
+          cases (Value.expr l r op m false).resolve t <;> rfl
+        | true => rfl
+      | _ => rfl
+    · rfl
   | special => rfl
   | indexed => exact absurd hkind hk
   | extIndirect =>
@@ -245,19 +278,25 @@ theorem resolveOperand_rename (hinj : ∀ x y, ρ x = ρ y → x = y) (t : SymTa
     | error e => rfl
     | ok v =>
       have hb : (OpKind.unknown != OpKind.unknown) = false := by decide
-      simp only [Except.map, hb, Bool.false_eq_true, if_false, renameValue_isDirect, renameValue_isExplicitDirect]
-      cases v with
-      | pyNone => rfl
-      | numeric i h m n =>
-        simp only [renameValue]
-        split
-        · cases hx : numericOfInt (i : Int) none .direct with
-          | error e => rfl
-          | ok w =>
-            have := renameValue_of_numeric (ρ := ρ) (numericOfInt_isNumeric hx)
-            simp only [renameOperand, this]
-        · rfl
-      | _ => rfl
+      simp only [Except.map, hb, Bool.false_eq_true, if_false, renameValue_isDirect, renameValue_isExplicitDirect,
+        renameValue_isExplicitExtended]
+      split
+      · rfl
+      · cases v with
+        | pyNone => rfl
+        | numeric i h m n =>
+          simp only [renameValue]
+          split
+          · cases hx : numericOfInt (i : Int) none .direct with
+            | error e => rfl
+            | ok w =>
+              have := renameValue_of_numeric (ρ := ρ) (numericOfInt_isNumeric hx)
+              simp only [renameOperand, this]
+          · rfl
+        | address i m =>
+          simp only [renameValue]
+          split <;> rfl
+        | _ => rfl
   | relative | inherent | immediate | direct | extended =>
     dsimp only
     rw [ev, resolve_rename hinj]
